@@ -1,11 +1,139 @@
 package main
 
+import (
+	"bytes"
+	"fmt"
+	"unsafe"
+)
+
+// ---- how the harness hands byte strings to the implementation, and what it watches afterwards ----
+//
+// The models are pure functions of their arguments.  The implementation is only faithful to that if it
+// (a) does not write into the buffers it is given, (b) does not keep using them after it returns, (c) does not
+// depend on the spare capacity behind them, and (d) returns memory of its own (a result does not change
+// when the implementation is called again).  None of these is visible to a test that builds a fresh buffer
+// per call and looks at each result once, so the framework arranges for them to be visible:
+//   - every buffer passed through exact() during calls of one entry point lives at the SAME address (a
+//     per-entry-point arena): an alias the implementation kept from an earlier call sees the bytes of the
+//     next input, and the result differs from the model's;
+//   - after each call the buffers handed over are compared with the arguments: a difference is reported;
+//   - every byte slice an entry point returns is remembered (the slice itself, and a copy): if a LATER
+//     call changes it, that is reported;
+//   - a sample of calls is repeated in "roomy" mode, where each buffer is followed by spare capacity full
+//     of garbage: the result must be the same.
+const arenaSize = 1 << 17
+
+var curImpl string // entry point being executed ("" outside implementation calls)
+var curCall int
+var arenas = map[string][]byte{}
+var arenaOff int
+var roomy bool
+
+type handed struct{ buf, arg []byte }
+
+var callInputs []handed
+
+// entry points whose objects legitimately keep the caller's buffers across calls of the harness
+var noArena = map[string]bool{
+	"rc4.run": true, "rc4.arena": true, // XORKeyStream is exercised in place (dst == src) on purpose
+}
+
 // exact returns a copy whose capacity equals its length, so that any out-of-bounds slice
 // expression panics instead of silently reading spare capacity.
 func exact(b []byte) []byte {
-	c := make([]byte, len(b))
-	copy(c, b)
-	return c[:len(b):len(b)]
+	if curImpl == "" || noArena[curImpl] {
+		c := make([]byte, len(b))
+		copy(c, b)
+		return c[:len(b):len(b)]
+	}
+	if roomy {
+		c := make([]byte, len(b)+32)
+		for i := range c {
+			c[i] = 0xA5
+		}
+		copy(c, b)
+		s := c[:len(b)]
+		callInputs = append(callInputs, handed{s, b})
+		return s
+	}
+	if len(b) > arenaSize-arenaOff {
+		c := make([]byte, len(b))
+		copy(c, b)
+		s := c[:len(b):len(b)]
+		callInputs = append(callInputs, handed{s, b})
+		return s
+	}
+	a := arenas[curImpl]
+	if a == nil {
+		a = make([]byte, arenaSize)
+		arenas[curImpl] = a
+	}
+	s := a[arenaOff : arenaOff+len(b) : arenaOff+len(b)]
+	copy(s, b)
+	arenaOff += len(b)
+	callInputs = append(callInputs, handed{s, b})
+	return s
+}
+
+func overlaps(a, b []byte) bool {
+	if cap(a) == 0 || cap(b) == 0 {
+		return false
+	}
+	a0 := uintptr(unsafe.Pointer(unsafe.SliceData(a)))
+	b0 := uintptr(unsafe.Pointer(unsafe.SliceData(b)))
+	return a0 < b0+uintptr(cap(b)) && b0 < a0+uintptr(cap(a))
+}
+
+type trackedOut struct {
+	orig, snap []byte
+	fn         string
+	call       int
+}
+
+var outRing [192]trackedOut
+var outN int
+
+// trackOutput remembers a byte slice the implementation returned (called by B inside an implementation call)
+func trackOutput(b []byte) {
+	if curImpl == "" || len(b) == 0 || noArena[curImpl] {
+		return
+	}
+	for _, h := range callInputs {
+		if overlaps(b, h.buf) {
+			return // a view of the input: legitimately zero-copy
+		}
+	}
+	if a := arenas[curImpl]; a != nil && overlaps(b, a) {
+		return
+	}
+	outRing[outN%len(outRing)] = trackedOut{b, append([]byte{}, b...), curImpl, curCall}
+	outN++
+}
+
+// afterCall reports (key, detail) when the call just finished wrote into its inputs, or when a slice returned
+// by an EARLIER call has changed since.
+func afterCall(prop, fn string) (string, string) {
+	for _, h := range callInputs {
+		if !bytes.Equal(h.buf, h.arg) {
+			return prop + "/writes-into-input/" + fn, fmt.Sprintf("%s changed the buffer it was given: %x became %x", fn, trunc16(h.arg), trunc16(h.buf))
+		}
+	}
+	for i := range outRing {
+		t := &outRing[i]
+		if t.orig != nil && t.call < curCall && !bytes.Equal(t.orig, t.snap) {
+			k, d := prop+"/result-changes-later/"+t.fn, fmt.Sprintf("bytes returned by %s (%x...) were changed by a later call of %s (now %x...): the result is not memory of its own", t.fn, trunc16(t.snap), fn, trunc16(t.orig))
+			t.orig = nil
+			return k, d
+		}
+	}
+	return "", ""
+}
+
+func trunc16(b []byte) []byte {
+	if len(b) > 48 {
+		return b[:48]
+	}
+	return b
 }
 
 // Truncations returns every proper prefix of b (including the empty one) and b itself.
@@ -46,4 +174,11 @@ func cat(bs ...[]byte) []byte {
 		out = append(out, b...)
 	}
 	return out
+}
+
+func trunc(s string, n int) string {
+	if len(s) > n {
+		return s[:n] + "..."
+	}
+	return s
 }
